@@ -7,7 +7,9 @@ LEVEL = 'exploration'
 
 LEAVES = ["a = 1", "a <> 1", "a < b", "a IS NULL", "a IS NOT NULL", "a IN (1, 2)", "a IN (1, NULL)",
           "a NOT IN (1, NULL)", "a BETWEEN 1 AND b", "a NOT BETWEEN b AND 2", "s LIKE 'a%'", "s NOT LIKE '_b'",
-          "s IN ('a', NULL)", "s NOT IN ('ab', NULL)", "s IN ('a', 'x')", "s = 'a'", "b IN (a, 2)"]
+          "s IN ('a', NULL)", "s NOT IN ('ab', NULL)", "s IN ('a', 'x')", "s = 'a'", "b IN (a, 2)",
+          # BETWEEN whose two comparisons can be (FALSE, NULL): FALSE under Kleene AND, so NOT BETWEEN keeps the row
+          "a BETWEEN b AND 1", "a NOT BETWEEN 2 AND b", "a BETWEEN NULL AND 1", "s NOT BETWEEN 'ab' AND NULL"]
 
 
 def trees(depth):
